@@ -8,6 +8,7 @@ import (
 	"testing"
 
 	"github.com/wollac/iota-crypto-demo/pkg/bip39"
+	"golang.org/x/text/unicode/norm"
 	"pgregory.net/rapid"
 
 	"verifharness/h"
@@ -229,6 +230,19 @@ func checkSentence(c sentCase) (h.Info, error) {
 	}
 	in := append(bip39.Mnemonic{}, c.Words...)
 	got, err := bip39.MnemonicToEntropy(in)
+	if werr != nil && err == nil {
+		// words handed over in a Unicode-equivalent spelling: the statement leaves open whether they are
+		// normalised first (then the sentence is judged and decoded in its normalised form) or rejected
+		nw := make([]string, len(c.Words))
+		changed := false
+		for i, w := range c.Words {
+			nw[i] = norm.NFKD.String(w)
+			changed = changed || nw[i] != w
+		}
+		if nwant, nerr := ref.Decode(l, nw); changed && nerr == nil && bytes.Equal(got, nwant) {
+			return h.Info{Class: "sentence/denormalised-words-normalised-by-the-library", NT: true}, nil
+		}
+	}
 	if (werr == nil) != (err == nil) {
 		return info, fmt.Errorf("MnemonicToEntropy(%q) [%s] = %x, %v; reference: %x, %v", c.Words, c.Lang, got, err, want, werr)
 	}
